@@ -94,7 +94,10 @@ void QXmppIq::parseElementFromChild(const QDomElement &element)
     QXmppElementList extensions;
 
     for (const auto &itemElement : iterChildElements(element)) {
-        extensions.append(QXmppElement(itemElement));
+        // the error is parsed by QXmppStanza and serialized separately
+        if (itemElement.tagName() != u"error") {
+            extensions.append(QXmppElement(itemElement));
+        }
     }
     setExtensions(extensions);
 }
